@@ -33,6 +33,9 @@ type vfCOp struct {
 	Only []int `json:"only,omitempty"`
 	// search through a numeric metadata filter that every document satisfies (metadata / hybrid / store)
 	Meta bool `json:"meta,omitempty"`
+	// vector search with a non-default score aggregation ("" | max | mean): the aggregators are
+	// process-wide objects shared by every search
+	Agg string `json:"agg,omitempty"`
 }
 
 type vfC11Case struct {
@@ -91,6 +94,11 @@ func vfC11Gen(rt *rapid.T) vfC11Case {
 				return vfCOp{Op: "remove", N: removed[rapid.IntRange(0, len(removed)-1).Draw(rt, "rm_again")]}
 			case w < 80:
 				op := vfCOp{Op: "search", Q: g.drawNonZero(rt, "q"), Multi: rapid.IntRange(0, 2).Draw(rt, "multi_query") == 0}
+				if rapid.IntRange(0, 3).Draw(rt, "aggregation") == 0 {
+					op.Multi = false
+					op.Agg = rapid.SampledFrom([]string{"mean", "max", "mean"}).Draw(rt, "agg")
+					return op
+				}
 				if rapid.IntRange(0, 3).Draw(rt, "by_metadata") == 0 {
 					op.Multi, op.Meta = false, true
 					return op
@@ -157,6 +165,8 @@ type vfConcTarget struct {
 	searchOnly func(q []float32, ids []uint32) ([]uint32, error)
 	// searchMeta: a numeric range filter (bit-sliced index) that every document satisfies
 	searchMeta func() ([]uint32, error)
+	// searchAgg: the plain search with another score aggregation (same id set)
+	searchAgg func(q []float32, agg string) ([]uint32, error)
 	flush      func() error
 	write      func() error
 	exact      bool // a k=all search must contain every document that is visible
@@ -201,6 +211,14 @@ func vfBuildConcTarget(c *vfC11Case, dir string) (*vfConcTarget, error) {
 		t.remove = func(id uint32) error { return idx.Remove(*NewVectorNodeWithID(id, nil)) }
 		t.search = func(q []float32) ([]uint32, error) {
 			res, err := idx.NewSearch().WithQuery(vfCloneF32(q)).WithK(0).WithNProbes(0).Execute()
+			ids := make([]uint32, len(res))
+			for i, r := range res {
+				ids[i] = r.GetId()
+			}
+			return ids, err
+		}
+		t.searchAgg = func(q []float32, agg string) ([]uint32, error) {
+			res, err := idx.NewSearch().WithQuery(vfCloneF32(q), vfCloneF32(q)).WithK(0).WithNProbes(0).WithScoreAggregation(ScoreAggregationKind(agg)).Execute()
 			ids := make([]uint32, len(res))
 			for i, r := range res {
 				ids[i] = r.GetId()
@@ -284,6 +302,14 @@ func vfBuildConcTarget(c *vfC11Case, dir string) (*vfConcTarget, error) {
 			}
 			return ids, err
 		}
+		t.searchAgg = func(q []float32, agg string) ([]uint32, error) {
+			res, err := h.NewSearch().WithVector(vfCloneF32(q)).WithScoreAggregation(ScoreAggregationKind(agg)).WithK(vfBigK).Execute()
+			ids := make([]uint32, len(res))
+			for i, r := range res {
+				ids[i] = r.ID
+			}
+			return ids, err
+		}
 		t.searchMeta = func() ([]uint32, error) {
 			res, err := h.NewSearch().WithMetadata(Range("n", 0, 999)).WithK(vfBigK).Execute()
 			ids := make([]uint32, len(res))
@@ -318,6 +344,14 @@ func vfBuildConcTarget(c *vfC11Case, dir string) (*vfConcTarget, error) {
 		t.remove = st.Remove
 		t.search = func(q []float32) ([]uint32, error) {
 			res, err := st.NewSearch().WithVector(vfCloneF32(q)).WithK(vfBigK).Execute()
+			ids := make([]uint32, len(res))
+			for i, r := range res {
+				ids[i] = r.ID
+			}
+			return ids, err
+		}
+		t.searchAgg = func(q []float32, agg string) ([]uint32, error) {
+			res, err := st.NewSearch().WithVector(vfCloneF32(q)).WithScoreAggregation(ScoreAggregationKind(agg)).WithK(vfBigK).Execute()
 			ids := make([]uint32, len(res))
 			for i, r := range res {
 				ids[i] = r.ID
@@ -501,6 +535,8 @@ func vfC11RunCase(c vfC11Case, ctx *vfCtx) *vfViolation {
 							s.only[id] = true
 						}
 						s.ids, s.err = t.searchOnly(op.Q, only)
+					} else if op.Agg != "" && t.searchAgg != nil {
+						s.ids, s.err = t.searchAgg(op.Q, op.Agg)
 					} else if op.Meta && t.searchMeta != nil {
 						s.ids, s.err = t.searchMeta()
 					} else if op.Multi && t.searchMulti != nil {
